@@ -7,6 +7,15 @@ int c_islin(int nval, double thresh, double tol, int npoints,
     int ierr=0, i, k, count, start, lintype;
     double dist, vprec, vnext, vcur;
 
+    /* Less than two values: nothing can be linear and
+     * data[1], islin[1] (data[0], islin[0]) do not exist */
+    if(nval < 2)
+    {
+        if(nval == 1)
+            islin[0] = 0;
+        return ierr;
+    }
+
     /* initialisation */
     vprec = data[0];
     if(isnan(vprec)) vprec = thresh-1;
